@@ -410,11 +410,26 @@ class ObsScenario(NetScenario):
     def on_step(self, st, label):
         if "/silent" in label or "/rst" in label or label.split(":")[0] in ("icmp", "shutdown", "dereg", "plain", "rereg"):
             st.disturbed = True      # the observer (or the application) ended things its own way
+        # which observers have given the server a reason to give up on them (silence, a transport error; a Reset ends things explicitly)
+        st.excused = getattr(st, "excused", set())
+        if "/silent" in label or "/rst" in label:
+            st.excused.add(label.split(":", 1)[1].split("<")[0])
+        if label.split(":")[0] == "icmp":
+            st.excused.add(label.split(":")[1])
+        if label.split(":")[0] == "shutdown":
+            st.excused.update(("O1", "O2"))
+        if getattr(st.o1, "deaf", False):
+            st.excused.add("O1")
         # timeouts: the monitor learns them from the token manager dropping the request of a silent observer
         for r in self.live(st):
             tm = st.srv.tman
             if tm.incoming_requests is not None and not any(tok == r.token and rem.sockaddr[:2] == r.obs.addr for (tok, rem) in tm.incoming_requests):
                 if r.ended is None:
+                    if r.obs.name not in st.excused:
+                        # nothing happened between the server and this observer that would end a registration: what happens to
+                        # another endpoint's exchanges is not its business
+                        self.violate(st, r, Violation("registration-dropped-without-cause", "the registration of %s goes on" % r.obs.name,
+                                                       "its request state is gone", "tokenmanager.py:dispatch_error", {}, key="dropped:" + r.obs.name))
                     self.end(st, r, "request state gone (time-out)", weak=True)
         for r in st.regs:
             notes = self.notifications(st, r)
